@@ -77,7 +77,8 @@ def select__pi_kind_test(self: XPathFunction, context: ta.ContextType = None) \
 def nud__pi_kind_test(self: XPathFunction) -> XPathFunction:
     self.parser.advance('(')
     if self.parser.next_token.symbol != ')':
-        self.parser.next_token.expected('(name)', '(string)')
+        # the target can be a name that is also the name of a function (e.g. 'pi', 'name')
+        self.parser.expected_next('(name)', '(string)')
         self[0:] = self.parser.expression(5),
     self.parser.advance(')')
     return self
